@@ -9,7 +9,8 @@ Import ListNotations.
 Theorem source_facts :
   Gen_Verify.verify_mode_follows_cert_reqs = Some true /\ Gen_Verify.own_check_condition = Some true /\
   Gen_Verify.post_handshake_checks = Some true /\ Gen_Verify.default_context_rule = Some true /\
-  Gen_Verify.no_cert_reqs_means_required = Some true /\ Gen_Verify.warning_rule = Some true.
+  Gen_Verify.no_cert_reqs_means_required = Some true /\ Gen_Verify.warning_rule = Some true /\
+  Gen_Verify.system_store_only_without_ca = Some true.
 Proof. repeat split; reflexivity. Qed.
 Print Assumptions source_facts.
 
@@ -22,7 +23,7 @@ Definition demanded (s : settings) (p : peer) : Prop :=
       match resolve (s_cert_reqs s) with
       | VNone => True                                (* nothing is demanded (and the connection is not called verified) *)
       | _ =>
-          p_chain_ok p = true /\
+          p_chain_ok s p = true /\
           match s_assert_hostname s with
           | AHFalse => True
           | AHName => p_assert_name_ok p = true
@@ -35,15 +36,17 @@ Definition demanded (s : settings) (p : peer) : Prop :=
 (* not one byte of the request is written unless the peer passed the checks the settings demand *)
 Theorem sent_only_if_verified_as_configured : forall s p v w, connect s p = Sent v w -> demanded s p.
 Proof.
-  intros [cr ah fp cx] [chain sni asn] v w; unfold connect, demanded; cbn [s_cert_reqs s_assert_hostname s_fingerprint s_context p_chain_ok p_sni_name_ok p_assert_name_ok].
-  destruct cr, ah, fp, cx, chain, sni, asn; cbn; intros H; try discriminate; auto.
+  intros [cr ah fp cx tr] [iss sni asn] v w; unfold connect, demanded, p_chain_ok, anchored;
+    cbn [s_cert_reqs s_assert_hostname s_fingerprint s_context s_trust p_issuer p_sni_name_ok p_assert_name_ok].
+  destruct (negb (no_ca tr)) eqn:Ha, (no_ca tr && own_context cx) eqn:Hb; destruct cr, ah, fp, cx, iss, sni, asn; cbn; intros H; try discriminate; auto.
 Qed.
 Print Assumptions sent_only_if_verified_as_configured.
 
 (* by default (no cert_reqs, no assert_hostname, no fingerprint, no context) that is: a valid chain and a matching name *)
 Theorem default_is_chain_and_name : forall p v w,
-  connect (mkSettings CRDefault AHUnset FPUnset CtxNone) p = Sent v w -> p_chain_ok p = true /\ p_sni_name_ok p = true.
-Proof. intros [chain sni asn] v w; unfold connect; cbn. destruct chain, sni, asn; cbn; intros H; try discriminate; auto. Qed.
+  forall tr, let s := mkSettings CRDefault AHUnset FPUnset CtxNone tr in
+  connect s p = Sent v w -> p_chain_ok s p = true /\ p_sni_name_ok p = true.
+Proof. intros [iss sni asn] v w tr; unfold connect, p_chain_ok, anchored; cbn. destruct tr, iss, sni, asn; cbn; intros H; try discriminate; auto. Qed.
 Print Assumptions default_is_chain_and_name.
 
 (* a connection made without certificate validation - cert_reqs other than REQUIRED and no pinned fingerprint - is never
@@ -51,10 +54,28 @@ Print Assumptions default_is_chain_and_name.
 Theorem unvalidated_is_never_verified : forall s p v w, connect s p = Sent v w ->
   v = (is_required (resolve (s_cert_reqs s)) || negb (match s_fingerprint s with FPUnset => true | _ => false end)) /\ w = negb v.
 Proof.
-  intros [cr ah fp cx] [chain sni asn] v w; unfold connect; cbn [s_cert_reqs s_assert_hostname s_fingerprint s_context p_chain_ok p_sni_name_ok p_assert_name_ok].
-  destruct cr, ah, fp, cx, chain, sni, asn; cbn; intros H; try discriminate; inversion H; subst; split; reflexivity.
+  intros [cr ah fp cx tr] [iss sni asn] v w; unfold connect, p_chain_ok, anchored;
+    cbn [s_cert_reqs s_assert_hostname s_fingerprint s_context s_trust p_issuer p_sni_name_ok p_assert_name_ok].
+  destruct (negb (no_ca tr)) eqn:Ha, (no_ca tr && own_context cx) eqn:Hb; destruct cr, ah, fp, cx, iss, sni, asn; cbn; intros H; try discriminate; inversion H; subst; split; reflexivity.
 Qed.
 Print Assumptions unvalidated_is_never_verified.
+
+(* a configured CA (file, directory or in-memory data) is the only anchor: while certificates are validated and no
+   fingerprint is pinned, nothing is sent to a server whose certificate was issued by anyone else - the system store
+   included; and the system store counts only when no CA is configured and the context is urllib3's own *)
+Theorem configured_ca_is_the_only_anchor : forall s p v w,
+  connect s p = Sent v w -> s_fingerprint s = FPUnset -> resolve (s_cert_reqs s) <> VNone ->
+  match s_trust s with
+  | TNothing => p_issuer p = ISystem /\ s_context s = CtxNone
+  | _ => p_issuer p = IConfigured
+  end.
+Proof.
+  intros s p v w H Hfp Hv. pose proof (sent_only_if_verified_as_configured s p v w H) as D. unfold demanded in D. rewrite Hfp in D.
+  destruct (resolve (s_cert_reqs s)) eqn:Hr; try (exfalso; apply Hv; reflexivity);
+    destruct D as [Hc _]; unfold p_chain_ok, anchored in Hc;
+    destruct (s_trust s), (p_issuer p), (s_context s); cbn in Hc; try discriminate; auto.
+Qed.
+Print Assumptions configured_ca_is_the_only_anchor.
 
 (* when the peer does not pass, the outcome is a refusal (SSLError) - or the ssl module's own ValueError for CERT_NONE on
    a context that checks host names - and nothing is written: the only constructor that writes is Sent *)
@@ -67,10 +88,12 @@ Print Assumptions failing_peer_is_refused.
 
 (* non-vacuity: the lattice really contains accepted, refused and misconfigured points *)
 Example points :
-  connect (mkSettings CRDefault AHUnset FPUnset CtxNone) (mkPeer true true true) = Sent true false /\
-  connect (mkSettings CRNone AHUnset FPUnset CtxNone) (mkPeer false false false) = Sent false true /\
-  connect (mkSettings CRNone AHUnset FPRight CtxNone) (mkPeer false false false) = Sent true false /\
-  connect (mkSettings CRDefault AHUnset FPUnset CtxNone) (mkPeer true false true) = Refused /\
-  connect (mkSettings CROptional AHFalse FPUnset CtxNotChecking) (mkPeer false true true) = Refused /\
-  connect (mkSettings CRNone AHUnset FPUnset CtxChecking) (mkPeer true true true) = Misconfigured.
+  connect (mkSettings CRDefault AHUnset FPUnset CtxNone TFile) (mkPeer IConfigured true true) = Sent true false /\
+  connect (mkSettings CRDefault AHUnset FPUnset CtxNone TNothing) (mkPeer ISystem true true) = Sent true false /\
+  connect (mkSettings CRDefault AHUnset FPUnset CtxNone TData) (mkPeer ISystem true true) = Refused /\
+  connect (mkSettings CRNone AHUnset FPUnset CtxNone TFile) (mkPeer IUnknown false false) = Sent false true /\
+  connect (mkSettings CRNone AHUnset FPRight CtxNone TFile) (mkPeer IUnknown false false) = Sent true false /\
+  connect (mkSettings CRDefault AHUnset FPUnset CtxNone TFile) (mkPeer IConfigured false true) = Refused /\
+  connect (mkSettings CROptional AHFalse FPUnset CtxNotChecking TFile) (mkPeer IUnknown true true) = Refused /\
+  connect (mkSettings CRNone AHUnset FPUnset CtxChecking TFile) (mkPeer IConfigured true true) = Misconfigured.
 Proof. repeat split; reflexivity. Qed.
